@@ -120,7 +120,9 @@ func init() {
 	reg(&Profile{Name: "c13", PForged: 10, Property: "C13", Oracles: []string{"roots", "lookup", "prove", "partial"},
 		Nodes: func(r *Rng) []NodeCfg {
 			return []NodeCfg{{Kind: "pollard"}, {Kind: "mapfull", TotalRows: -1, DetMaps: true}, {Kind: "mapfull", TotalRows: 0, DetMaps: r.Bool()},
-				mapNode("mapfull", r), {Kind: "mappartial", TotalRows: -1, DetMaps: true}, mapNode("mappartial", r), {Kind: "mappartial", TotalRows: -1, DetMaps: true, Big: bigOffset(r)}}
+				mapNode("mapfull", r), {Kind: "mappartial", TotalRows: -1, DetMaps: true}, mapNode("mappartial", r), {Kind: "mappartial", TotalRows: -1, DetMaps: true, Big: bigOffset(r)},
+				// a forest that started from bare roots (sparse: it never had most nodes), partial or full
+				{Kind: "mappartial", TotalRows: -1, DetMaps: r.Bool(), FromRoots: 1 + r.Intn(3), FullRoots: r.Pct(40)}}
 		},
 		MaxBlocks: 25, MaxAdds: 32, PReorg: 12, PSnapCrash: 35, PCacheOps: 8, NetFaults: true})
 	reg(&Profile{Name: "c14", NodeHashPct: 3, WidePct: 2, PForged: 15, Property: "C14", Oracles: []string{"roots", "c14proto"},
@@ -233,6 +235,15 @@ func Generate(p *Profile, seed uint64) *Scenario {
 		// the proof helpers, cached-proof undo; DESIGN 7.1).  VERIF_EXP_NHL forces it
 		// for experiments in other profiles.
 		sc.NodeHashLeaf = true
+		hasForest := false
+		for _, n := range sc.Nodes {
+			hasForest = hasForest || (n.Kind != "stump" && n.Kind != "light")
+		}
+		if hasForest && os.Getenv("VERIF_EXP_NHL") != "2" {
+			// forests holding such a leaf are only taken forward: after Undo they are
+			// known to go wrong (DESIGN 7.1), so these runs have no reorganisation
+			pReorg = 0
+		}
 	}
 	if p.PForged > 0 && sw.Pct(60) {
 		sc.Forged = p.PForged
